@@ -200,10 +200,68 @@ def redisNext : Bool → P (List Ev × Bool)
   | true => fun _ => none
   | false => bindP (rItem redisLevels) (fun it => pureP ((redisStep it).1, !(redisStep it).2))
 
-/-- at the end of the stream the Scanner hands out an unterminated last line -/
+/-! at the end of the stream: the Scanner hands out an unterminated last line as a token, an item that
+starts at the very end is an error ("eof"), but the content line of a bulk string that is missing
+altogether reads as the empty string (`scanner.Scan()`'s result is not looked at there) -/
+
+/-- a Scanner token with the end of the stream behind the buffer -/
+def scanLineE (b : Bytes) : Option (Bytes × Bytes) :=
+  match scanLine b with
+  | some r => some r
+  | none => if b.isEmpty then none else some (if b.getLast? == some cr then b.dropLast else b, [])
+
+def rItemsE (item : Bytes → Option (Option RItem × Bytes)) : Nat → Bytes → Option (Option RItem × Bytes)
+  | 0, b => some (some (.arr []), b)
+  | n + 1, b =>
+    match item b with
+    | none => none
+    | some (none, r) => some (none, r)
+    | some (some x, r) =>
+      match rItemsE item n r with
+      | some (some (.arr xs), r2) => some (some (.arr (x :: xs)), r2)
+      | some (_, r2) => some (none, r2)
+      | none => none
+
+/-- `parseRedisDataDepth` against the final buffer; outer `none` = the scanner is at the end ("eof" error) -/
+def rItemE : Nat → Bytes → Option (Option RItem × Bytes)
+  | 0, b => some (none, b)
+  | levels + 1, b =>
+    match scanLineE b with
+    | none => none
+    | some (cmd, r) =>
+      match cmd with
+      | [] => some (some .empty, r)
+      | t :: rest =>
+        if t == 42 then
+          match parseUint rest with
+          | none => some (none, r)
+          | some n => rItemsE (rItemE levels) n r
+        else if t == 43 then some (some (.simple rest), r)
+        else if t == 36 then
+          match parseUint rest with
+          | none => some (none, r)
+          | some _ =>
+            match scanLineE r with
+            | some (s, r2) => some (some (.bulk s), r2)
+            | none => some (some (.bulk []), r)
+        else if t == 58 then
+          match parseUint rest with
+          | none => some (none, r)
+          | some n => some (some (.int n), r)
+        else some (none, r)
+
+/-- the commands still completed from what is buffered when the stream ends -/
+def redisTail : Nat → Bytes → List Ev
+  | 0, _ => []
+  | fuel + 1, b =>
+    match rItemE redisLevels b with
+    | none => []
+    | some (it, r) =>
+      let st := redisStep it
+      if st.2 then st.1 ++ redisTail fuel r else st.1
+
 def redisFinish (closed : Bool) (buf : Bytes) : List Ev :=
-  if closed || buf.isEmpty || buf.getLast? == some lf then []     -- no unterminated last line: nothing new
-  else (drain { next := redisNext, finish := fun _ _ => [] } (buf.length + 2) false (buf ++ [lf])).1
+  if closed then [] else redisTail (buf.length + 1) buf
 
 def redis : Proto Bool Ev := { next := redisNext, finish := redisFinish }
 
